@@ -85,21 +85,24 @@ def gen_case(seed, k):
     drive = ["""        for i in 0..%d {
             let x = mk(i, 0);
             %sbegin();
+            // no coercion at the call site: the address and the SIZE of whatever Deref::deref returns
+            let (p, sz) = %saddr_size(::core::ops::Deref::deref(&x));
             let r: &%sT = &*x;
-            let p = r as *const %sT as usize;
-            let s = format!("{}\\t{}", (p == addr_deref(&x)) as u8, %spfp(r));
+            let ok = p == addr_deref(&x) && sz == ::core::mem::size_of::<%sT>();
+            let s = format!("{}\\t{}", ok as u8, %spfp(r));
             %sobs("c%d", "deref", i, -1, &s);
-        }""" % (len(vals), RT, RT, RT, RT, RT, k)]
+        }""" % (len(vals), RT, RT, RT, RT, RT, RT, k)]
     if mut:
         drive.append("""        for i in 0..%d {
             let mut x = mk(i, 0);
             let before = %sFp::fp(&x);
             %sbegin();
-            let q = { let r: &mut %sT = &mut *x; let q = r as *mut %sT as usize; *r = %sT::mk(5, 77, 1); q };
-            let ok = q == addr_derefmut(&x);
+            let (q, sz) = { let m = ::core::ops::DerefMut::deref_mut(&mut x); %saddr_size(&*m) };
+            { let r: &mut %sT = &mut *x; *r = %sT::mk(5, 77, 1); }
+            let ok = q == addr_derefmut(&x) && sz == ::core::mem::size_of::<%sT>();
             let s = format!("{}\\t{}\\t{}", ok as u8, before, %sFp::fp(&x));
             %sobs("c%d", "derefmut", i, -1, &s);
-        }""" % (len(vals), RT, RT, RT, RT, RT, RT, RT, k))
+        }""" % (len(vals), RT, RT, RT, RT, RT, RT, RT, RT, k))
     return BH.Case("c%d" % k, td, text, vals, glue=glue, drive="\n".join(drive), info={"mut": mut})
 
 
